@@ -140,7 +140,11 @@ class InversePowerPotential(StandardVelocityInvertiblePotential):
         float
             The potential.
         """
-        return charge_product * self._prefactor / vectors.norm_sq(separation) ** self._power_over_two
+        norm_sq_of_separation = vectors.norm_sq(separation)
+        if norm_sq_of_separation == 0.0:
+            # The potential diverges at vanishing separation (reached in a head-on approach without transverse part).
+            return self._infinity if charge_product * self._prefactor > 0.0 else -self._infinity
+        return charge_product * self._prefactor / norm_sq_of_separation ** self._power_over_two
 
     def _displacement_repulsive(self, direction: int, charge_product: float, potential_change: float,
                                 separation: Sequence[float]) -> float:
